@@ -7,3 +7,8 @@ package keeper
 //@ contract (*Keeper).ClientStore
 //@   ensures prefix: prefixOf(result) == "clients/" + clientID + "/"
 //@   ensures same_store: viewBranch(result) == branch(ctx) && viewSvc(result) == svcid(k.storeService)
+
+//@ contract (*Keeper).Route
+//@   ensures allowed_type: err == nil ==> k.GetParams(ctx).IsAllowedClient(types.ParseClientIdentifier(clientID))
+//@   ensures parsed: err == nil ==> nth(types.ParseClientIdentifier(clientID), 2) == nil
+//@   ensures pure: world(ctx) == old(world(ctx))
